@@ -206,6 +206,12 @@ def run_target(contract, registry, classes):
                             eng.oblige(s2, f"frame:{name}.{f}@{tag}", "frame", frame_equal(eng, s2, old_v, new_v))
             elif sig[0] == "raise":
                 exc = sig[1]
+                if exc not in raises:
+                    # a subclass of a contracted exception (class statements of the current source / builtin hierarchy) counts as that exception
+                    anc = X.exception_ancestors(exc)
+                    hit = [k for k in raises if k in anc]
+                    if hit:
+                        exc = hit[0]
                 if exc in raises:
                     g = eng.eval_clause(raises[exc], entry)
                     eng.oblige(s2, f"raises#{exc}.only@{tag}", "raises", g)
